@@ -188,6 +188,9 @@ def oracle(case, impl):
             bad.append('%s: %s' % (line, out))
         if t[0] == 'dump':
             prev_dump[t[1]] = parse_dump(out)
+            both = set(prev_dump[t[1]][0]) & set(prev_dump[t[1]][1])
+            if both:
+                bad.append('%s: ids %s are live AND tombstoned at once (a purge would hand a live id to remove_tombstones)' % (line, sorted(both)))
         elif t[0] == 'purge':
             r = t[1]
             purged = {} if out == '-' else {int(a): int(b) for a, b in (x.split(':') for x in out.split(','))}
@@ -197,6 +200,7 @@ def oracle(case, impl):
                 if before[0] != after[0]:
                     bad.append('%s changed the live entries: %s -> %s' % (line, before[0], after[0]))
                 for k, d in purged.items():
+                    if k in before[0]: bad.append('%s returned key %d which is live: purging must remove only tombstones' % (line, k))
                     if before[1].get(k) != d: bad.append('%s returned (%d,%d) which was not a tombstone' % (line, k, d))
                     if k in after[1]: bad.append('%s returned key %d but kept its tombstone' % (line, k))
                 for k, d in after[1].items():
